@@ -390,14 +390,26 @@ func GenC10(seed uint64, idx int) *Scenario {
 	for !world.ShapeOK(typeInfo(mainType), cfg) {
 		mainType = c10Types[r.Intn(len(c10Types))]
 	}
+	// one scenario in fifty is a long history on one instance: hundreds of records of one type, most
+	// of them damaged (decodes that fail part-way), valid ones into fresh variables in between -
+	// state that builds up with every aborted operation needs that
+	long := r.Intn(50) == 0
+	if long {
+		sc.Note = "long-history"
+	}
 	for t := 0; t < nt; t++ {
 		nops := 5 + r.Intn(10)
+		maxTries := 50
+		if long {
+			nops = 140 + r.Intn(160)
+			maxTries = 3 * nops
+		}
 		var ops []Op
 		tries := 0
-		for len(ops) < nops && tries < 50 {
+		for len(ops) < nops && tries < maxTries {
 			tries++
 			tn := mainType
-			if r.Intn(5) == 0 {
+			if !long && r.Intn(5) == 0 {
 				tn = c10Types[r.Intn(len(c10Types))]
 				if !world.ShapeOK(typeInfo(tn), cfg) {
 					continue
@@ -426,7 +438,14 @@ func GenC10(seed uint64, idx int) *Scenario {
 			if !ok {
 				continue
 			}
-			switch k := r.Intn(12); {
+			k := r.Intn(12)
+			if long {
+				k = 8 // torn
+				if r.Intn(5) == 0 {
+					k = 6 // valid, fresh target
+				}
+			}
+			switch {
 			case k < 6: // re-used target; slot bound to the type so that re-use really happens
 				op.Target = 1 + slotFor(tn, mainType)
 				switch r.Intn(6) {
@@ -448,7 +467,7 @@ func GenC10(seed uint64, idx int) *Scenario {
 				dmg, _ := DamageRecord(raw, r.Intn)
 				op.Data = hex.EncodeToString(dmg)
 				op.VSeed = 0 // the value behind the bytes is no longer known
-				if r.Intn(2) == 0 {
+				if !long && r.Intn(2) == 0 {
 					op.Target = 1 + slotFor(tn, mainType)
 				}
 				op.Pat = "torn"
